@@ -250,13 +250,13 @@ int main(int argc, char** argv) {
     verif::Run run("C13", argc, argv);
     run.setDeadline(240, 1800);
     const bool th = run.thorough();
-    run.rule = "E3: case = (host tree of 3, two-body element, parameter set, ordered body pair over {Ground,b0,b1,b2} incl. same body and Ground-Ground, station/frame set, state kind, value set) with the element alone enabled; plus contact/cable fixtures (kind x Ground-body/body-body x depth{separated,touching,shallow,deep} x velocity{rest,approaching,separating,sliding,spinning}). distinct = distinct tuple; non-trivial = the element applies a non-zero force or has a non-zero nominal action";
+    run.rule = "E3: case = (host tree of 3 bodies (3 trees; thorough 5), two-body element, parameter set, ordered body pair over {Ground,b0,b1,b2} incl. same body and Ground-Ground, station/frame set, state kind, value set) with the element alone enabled; plus contact/cable fixtures (kind x Ground-body/body-body x depth{separated,touching,shallow,deep} x velocity{rest,approaching,separating,sliding,spinning}). distinct = distinct tuple; non-trivial = the element applies a non-zero force or has a non-zero nominal action";
     run.assumptions = {"continuous values only from the fixed tables of engine/models.h and engine/forcemodels.h", "body poses used to shift moments are the library's position kinematics (checked by C03/C05)", "two-point elements with coincident stations and bushings within 0.2 of cos(q1)=0 are documented errors/singular: skipped and counted", "contact/cable fixtures: one geometry pair per kind"};
-    for (int h = 0; h < fm::NHOST; ++h) { std::string why; if (!fm::checkHostTables(h, &why)) { run.harnessError(why); return run.finish(); } }
+    for (int h = 0; h < fm::NHOST_ALL; ++h) { std::string why; if (!fm::checkHostTables(h, &why)) { run.harnessError(why); return run.finish(); } }
     std::vector<int> valueSets = th ? std::vector<int>{0, 1, 2} : std::vector<int>{(int)(((run.seed % 3) + 3) % 3)};
 
     std::vector<Unit> units;
-    for (int h = 0; h < fm::NHOST; ++h) for (int e = 0; e < fm::NELEM; ++e) if (fm::elemClass(e) == fm::CTwoBody)
+    for (int h = 0; h < (th ? fm::NHOST_ALL : fm::NHOST); ++h) for (int e = 0; e < fm::NELEM; ++e) if (fm::elemClass(e) == fm::CTwoBody)
         for (int p = 0; p < fm::numParamSets(e); ++p) for (int a = 0; a < fm::numAttachments(h, e); ++a) units.push_back({h, e, p, a});
     {
         verif::Odometer od; od.dim("state", 4); od.dim("valueset", (int64_t)valueSets.size()); od.dim("unit", (int64_t)units.size());
